@@ -51,7 +51,6 @@ func main() {
 
 func driver() {
 	run := evid.New("C17", "exploration")
-	defer sbx.RemoveBase()
 	run.Rule = "Part A: credential maps over the protocol's attribute names (protocol, host, path, username, password, wwwauth[], state[], authtype, credential, capability[], password_expiry_utc, oauth_refresh_token, ephemeral, continue); one value of one key carries a token (forbidden: LF, NUL, CRLF, CR; harmless look-alikes: TAB, VT, FF, DEL, ESC, BS, SOH, U+2028/2029/0085, raw 0x85/0xff, literal %0a/%0D/%00, backslash-n, '=', space, 'host=evil' text, UTF-8; whole-value shapes empty/long(4k..200k)/random bytes/blank edges) at position start/middle/end/alone; key x token x position are enumerated from the case index, operation (fill/approve/reject), family (direct map | URL+headers+state through GetCredentialHelper/FillCreds), credential.protectProtocol mode (unset,true,false,url-scoped false, other-url false, global false + url true), other keys/values and multi-value counts are PRNG-drawn. Part B: `git lfs locks` of the real binary, remote URL with percent-encoded token in userinfo/host/path/password, raw WWW-Authenticate/Lfs-Authenticate bytes from a TCP server, multistage helper answers (state[]) with CR/NUL/CRLF line ends. class = (part, family|location, op, protect mode, key, token, position)."
 	run.Assumptions = []string{
 		"the `git` shim first on PATH sees exactly what git-lfs passes to `git credential` (git-lfs resolves `git` through PATH: subprocess.LookPath)",
@@ -73,6 +72,7 @@ func driver() {
 	os.MkdirAll(shimDir, 0o755)
 	for _, n := range []string{"git", "git-credential-verifc17"} {
 		if err := os.Symlink(self, filepath.Join(shimDir, n)); err != nil {
+			sbx.RemoveBase()
 			run.Infra("symlink: %v", err)
 		}
 	}
@@ -84,6 +84,7 @@ func driver() {
 
 	partA(run, self, shimDir, nPass, nRefuse)
 	partB(run, shimDir, nE2E)
+	sbx.RemoveBase() // Finish exits the process: deferred calls do not run
 	run.Finish()
 }
 
@@ -205,6 +206,7 @@ func partA(run *evid.Run, self, shimDir string, nPass, nRefuse int) {
 
 func partB(run *evid.Run, shimDir string, n int) {
 	if _, err := os.Stat(filepath.Join(sbx.BinDir, "git-lfs")); err != nil {
+		sbx.RemoveBase()
 		run.Infra("git-lfs binary missing in %s", sbx.BinDir)
 	}
 	sh := &e2eShared{shimDir: shimDir, run: run}
